@@ -63,7 +63,7 @@ def run(pid, tier, seed):
             ("^TestVerifNATTours$", {"VERIF_SCEN": scen}),
             ("^TestVerifNATLifetime$", {}),
             ("^TestVerifNATRandom$", {"VERIF_OPS": 300 if not big else 600, "VERIF_REPS": 1 if not big else 10}),
-            ("^TestVerifNATExhaust$", {"VERIF_N": 16500, "VERIF_ALIVE": 1 if big else 0})]):
+            ("^TestVerifNATExhaust$", {"VERIF_N": 16440, "VERIF_ALIVE": 1 if big else 0})]):
         tp = os.path.join(d, "t%d.trace" % i)
         e = {"VERIF_TRACE": tp, "VERIF_SEED": seed}
         e.update(env)
